@@ -526,23 +526,18 @@ def chain_case(old, g1, g2):
                          "%s: sequential %s, new_json_fragment_files %s" % (case_txt, json.dumps(r2), json.dumps(got))))
             labels.append("glue-diff")
             continue
-        # stage 2 judged by the reference on the observable result, provided stage 1 is itself clean
+        # both merges judged by the reference (the second one on the observable result); only clean runs take part in
+        # the commutation clause - a discrepancy here is a part-F finding and is reported there
         st1, pr1, _ = R.judge_fragment(base, first["frag"], first["acl"], r1)
-        clean1 = st1 == "ok" and not pr1 and R.compatible(r1, second["frag"])
-        if clean1:
+        clean = st1 == "ok" and not pr1 and R.compatible(r1, second["frag"])
+        if clean:
             st2, pr2, _ = R.judge_fragment(r1, second["frag"], second["acl"], got)
-            if st2 == "ok" and pr2:
-                sig = {"kind": "chain-second-merge-wrong", "how": pr2[0]["code"]}
-                sig.update(_feature(second["acl"], second["frag"], r1))
-                viol.append((sig, "%s: after %s %s, final %s; %s" % (case_txt, names[0], json.dumps(r1), json.dumps(got),
-                                                                     json.dumps(pr2[:4]))))
-                labels.append("stage2-viol")
-                continue
-            if st2 == "ok":
-                results[order] = (r1, got)
-                labels.append("ok" if not R.same_value(got, base) else "ok-same")
-                continue
-        labels.append("stage-not-clean")
+            clean = st2 == "ok" and not pr2
+        if clean:
+            results[order] = (r1, got)
+            labels.append("ok" if not R.same_value(got, base) else "ok-same")
+        else:
+            labels.append("merge-not-clean")
     nontrivial = False
     if "12" in results and "21" in results:
         docs = [base, g1["frag"], g2["frag"], results["12"][0], results["12"][1], results["21"][0], results["21"][1]]
